@@ -75,7 +75,7 @@ fn gen_index(rng: &mut Rng, size: usize, depth: usize) -> (Value, i64) {
             0 => { s["url"] = json!(["http://x/s.map"]); height = 1; }                         // unresolved section
             1 if depth > 0 => { let (d, h) = gen_index(rng, size.min(3), depth - 1); s["map"] = json!([d]); height = h + 1; }
             k => {
-                let nsrc = 1 + rng.below(3);
+                let nsrc = if rng.chance(1, 10) { 60 + rng.below(20) } else { 1 + rng.below(3) };
                 let nl = 1 + rng.below(4) as i64;
                 let mut toks = vec![];
                 for l in 0..nl {
@@ -87,11 +87,11 @@ fn gen_index(rng: &mut Rng, size: usize, depth: usize) -> (Value, i64) {
                     }
                 }
                 let mut d = json!({"version": [3],
-                    "sources": [(0..nsrc).map(|_| json!([cps(*rng.pick(&pool))])).collect::<Vec<_>>()],
+                    "sources": [(0..nsrc).map(|i| if nsrc > 10 { json!([cps(&format!("big/src{}.js", i))]) } else { json!([cps(*rng.pick(&pool))]) }).collect::<Vec<_>>()],
                     "names": [[]], "mappings": [own_mappings(&toks)]});
                 if let Some(r) = own_range(&toks) { d["range"] = json!([r]); }
-                if rng.chance(1, 2) { d["contents"] = json!([(0..nsrc).map(|i| if rng.chance(1, 3) { json!([]) } else { json!([format!("content {} of section", i)]) }).collect::<Vec<_>>()]); }
-                if rng.chance(1, 3) { d["ignore"] = json!([[rng.below(nsrc)]]); }
+                if rng.chance(1, 2) { d["contents"] = json!([(0..nsrc).map(|i| if rng.chance(1, 3) { json!([]) } else if rng.chance(1, 4) { json!([""]) } else { json!([format!("content {} of section", i)]) }).collect::<Vec<_>>()]); }
+                if rng.chance(1, 3) || nsrc > 10 { d["ignore"] = json!([[rng.below(nsrc), nsrc - 1, (nsrc / 2 + 30).min(nsrc - 1)]]); }
                 if k == 2 { d["xfs"] = json!([(0..nsrc).map(|_| json!([])).collect::<Vec<_>>()]); }
                 s["map"] = json!([d]);
                 height = nl;
